@@ -116,12 +116,15 @@ def strategy(tier):
 
 # ------------------------------------------------------------------ sampling --------------
 ROWS = [None]      # parameter row of every returned sample row of the last _draw call
+WARM = [None]      # warm-up request issued on the same domain object before every tested request
 
 
 def _draw(ctx, feat, D, params, N, regime, nsmall, how="random"):
     """N rows from the library (one call with n=N, or many calls with n=nsmall); every library
     call gets its own termination budget."""
     fn = D.sample_random_uniform if how == "random" else D.sample_grid
+    if WARM[0] is not None and how == "random":
+        WARM[0](N)
     with warnings.catch_warnings():
         warnings.simplefilter("ignore")
         k = max(len(params), 1)
@@ -390,6 +393,7 @@ def _overlap_union(E, penv, gen):
 
 def run_case(spec, ctx):
     kind = spec["kind"]
+    WARM[0] = None
     N = NQ[ctx.tier]
     if kind in ("gauss", "lhs"):
         return _run_sampler_law(spec, ctx, N)
@@ -425,14 +429,30 @@ def run_case(spec, ctx):
         feat += "+nested"
         classes.append("nested-boolean-boundary")
 
+    WARM[0] = None
     if spec.get("warm", spec["rng"] % 2 == 0):
-        # the same domain object served a small request before (a law must not depend on what the object
-        # was asked earlier): two points per parameter row
-        core.seed_library(spec["rng"] + 5)
-        with ctx.lib("sample_random_uniform(warm-up n=2)", feature=feat):
-            with warnings.catch_warnings():
-                warnings.simplefilter("ignore")
-                D.sample_random_uniform(n=2, params=params)
+        # the same domain object served another request before every tested request (a law must not depend
+        # on what the object was asked earlier): two points per parameter row, or - where the expression
+        # allows it - a request of the SAME batch shape (same n, same number of rows) for OTHER parameter
+        # values (mirrored rows 1 - p)
+        mirror = None
+        if (prows and spec["rng"] % 4 == 0) or spec.get("warm") == "mirror":
+            mirrored = {kk: [[round(1.0 - x, 6) for x in r] for r in v] for kk, v in prows.items()}
+            if mirrored and specs.ratio_ok_rows(I, mirrored):
+                mirror = build.params_points(mirrored)
+                classes.append("warm-up-other-values")
+
+        def warm(n_stage):
+            if mirror is not None and spec["regime"] != "density":
+                wn = max(n_stage // max(geo.nrows(prows), 1), 1) if spec["regime"] == "large" else spec["nsmall"]
+                wp = mirror
+            else:
+                wn, wp = 2, params
+            with ctx.lib("sample_random_uniform(warm-up)", feature=feat):
+                with warnings.catch_warnings():
+                    warnings.simplefilter("ignore")
+                    D.sample_random_uniform(n=wn, params=wp)
+        WARM[0] = warm
         classes.append("warm-up")
 
     def lib_sample(n, seed):
@@ -790,6 +810,9 @@ def extra_cases(tier, seed):
     for j, regime in enumerate(("large", "small")):
         out.append({"kind": "comp", "regime": regime, "nsmall": 3, "rng": seed * 100 + 64 + j, "E": un,
                     "prows": {"p": [[0.0], [1.0]]}, "warm": False})
+    # the same union asked first for other parameter values (one row and two rows)
+    out.append({"kind": "comp", "regime": "large", "nsmall": 3, "rng": seed * 100 + 66, "E": un, "prows": {"p": [[0.1]]}, "warm": "mirror"})
+    out.append({"kind": "comp", "regime": "large", "nsmall": 3, "rng": seed * 100 + 67, "E": un, "prows": {"p": [[0.0], [1.0]]}, "warm": "mirror"})
     for j, shape in enumerate(["interval", "rect", "disc"]):
         out.append({"kind": "gauss", "regime": "large", "nsmall": 1, "rng": seed * 100 + 70 + j, "shape": shape,
                     "cen": [1.0, -2.0], "size": 2.0, "off": [0.2, -0.1], "std": 0.5, "k": 0})
